@@ -85,8 +85,10 @@ func (ue *ChfUe) init() {
 		Handler:            ue.RatingMux,
 		MaxRetransmits:     3,
 		RetransmitInterval: time.Second,
-		EnableWatchdog:     true,
-		WatchdogInterval:   5 * time.Second,
+		// A connection serves one request and is closed within the 5 s answer timer: there is nothing
+		// for a watchdog to watch, and its task outlives a connection on which no answer arrived.
+		EnableWatchdog:   false,
+		WatchdogInterval: 5 * time.Second,
 		AuthApplicationID: []*diam.AVP{
 			// Advertise support for credit control application
 			diam.NewAVP(avp.AuthApplicationID, avp.Mbit, 0, datatype.Unsigned32(4)), // RFC 4006
@@ -99,8 +101,10 @@ func (ue *ChfUe) init() {
 		Handler:            ue.AbmfMux,
 		MaxRetransmits:     3,
 		RetransmitInterval: time.Second,
-		EnableWatchdog:     true,
-		WatchdogInterval:   5 * time.Second,
+		// A connection serves one request and is closed within the 5 s answer timer: there is nothing
+		// for a watchdog to watch, and its task outlives a connection on which no answer arrived.
+		EnableWatchdog:   false,
+		WatchdogInterval: 5 * time.Second,
 		AuthApplicationID: []*diam.AVP{
 			// Advertise support for credit control application
 			diam.NewAVP(avp.AuthApplicationID, avp.Mbit, 0, datatype.Unsigned32(4)), // RFC 4006
